@@ -49,6 +49,9 @@ CHECKS = {
  "C12": dict(level="exploration", technique="history checker over unique-id entries (subsequence / no-loss / no-duplicate / order oracle) on every read path and on the decoded store; node-by-node LazyJSON-vs-json.loads monitor; sys.monitoring delay injection into flusher and reader code",
    text="Random append/flush/flush(at_exit)/clear/read sequences on the real JsonHistory and SqliteHistory with buffer sizes 1-10, $HISTCONTROL subsets and hostile texts (multi-line, any Unicode, control characters, JSON look-alikes); every entry has a unique timestamp so loss, duplication, reordering, invention and alteration are read off the data; reads are overlapped with pending flusher threads (counter floor), and after the flushers finish the file is decoded both through the embedded index and by plain json.loads and compared node by node.",
    note="Entries a $HISTCONTROL rule may drop are optional, entries no rule can drop are mandatory; SQLite text compared after rstrip; file content judged after all flushers finished.", ref="§2 C12, A.6"),
+ "C13": dict(level="fault_enumeration", technique="fault injection by enumeration: fork + audit-hook/write-proxy engine for the JSON store (kill-before-call, partial write, failing call at every event), strace syscall injection for SQLite",
+   text="For every generated instance of flush (at exit / background), delete, erasedups, stale-lock unlock and gc removal the audited file-system events and write() calls are counted in a dry run and then EVERY event is turned into a kill point, every write into partial writes of four prefix lengths and every call into a failing call with four errnos (exhaustive per instance); after each fault every history file must be loadable (embedded index == plain JSON) and hold its old commands as a prefix (flush) or exactly its old or new version. SQLite append/delete/erasedups/gc are SIGKILLed at enumerated write-class syscalls and judged by integrity_check and row conservation.",
+   note="Crash = process kill at Python's file-API boundary / at a syscall; power loss and fsync ordering are not modelled; stray *.json.tmp files are tolerated; the expected new version comes from a fault-free forked run.", ref="§2 C13, A.6"),
 }
 NOT_BUILT = "check not built yet in this session (planned, see DESIGN.md §2); nothing is claimed for it"
 def main():
